@@ -40,6 +40,13 @@ def _sim_oserror(code, msg):
 class Tty:
     kind = "tty"
 
+    def readable_len(self):
+        """bytes a read may take now: in canonical mode (ICANON) only complete lines"""
+        if self.attrs[3] & _termios.ICANON:
+            i = self.inq.rfind(b"\n")
+            return i + 1
+        return len(self.inq)
+
     def __init__(self, attrs=None, flags=None):
         self.inq = bytearray()
         self.attrs = attrs if attrs is not None else sane_attrs()
@@ -93,6 +100,9 @@ class Kernel:
             raise TypeError("an integer is required (got type %s)" % type(fd).__name__)
         o = self.fds.get(fd)
         if o is None:
+            if 0 <= fd < FD_BASE:
+                raise HarnessError("descriptor %d was not issued by the simulated kernel "
+                                   "(an un-seamed call such as os.dup/socketpair/eventfd created it)" % fd)
             raise _sim_oserror(errno.EBADF, "Bad file descriptor")
         return o
 
@@ -138,7 +148,7 @@ class Kernel:
         if o is None:
             return True   # select would fail with EBADF: "ready" so the caller sees it
         if o.kind == "tty":
-            return len(o.inq) > 0
+            return o.readable_len() > 0
         if o.kind == "pr":
             return len(o.pipe.buf) > 0 or not o.pipe.w_open
         return False
@@ -160,18 +170,21 @@ class Kernel:
         else:
             f = None
             buf = o.pipe.buf
-        if not buf:
+        def avail():
+            return o.readable_len() if o.kind == "tty" else len(buf)
+        if not avail():
             if o.kind == "pr" and not o.pipe.w_open:
                 self.w.log.add("read", fd, n, b"")
                 return b""
             if o.flags & _os.O_NONBLOCK:
                 self.w.log.add("read", fd, n, "EAGAIN")
                 raise BlockingIOError(errno.EAGAIN, "Resource temporarily unavailable")
-            self.w.block_until(lambda: len(buf) > 0 or (o.kind == "pr" and not o.pipe.w_open),
+            self.w.block_until(lambda: avail() > 0 or (o.kind == "pr" and not o.pipe.w_open),
                                None, "read")
-            if not buf:
+            if not avail():
                 self.w.log.add("read", fd, n, b"")
                 return b""
+        n = min(n, avail())
         if f is not None and f[0] == "cap" and f[1] < min(n, len(buf)):
             n = max(1, f[1])
             self.w.fault("short_read")
@@ -219,6 +232,8 @@ class Kernel:
             rl.append((x, fd))
         for x, fd in rl:
             if fd not in self.fds:
+                if isinstance(fd, int) and 0 <= fd < FD_BASE:
+                    raise HarnessError("select on descriptor %d, which the simulated kernel did not issue" % fd)
                 raise _sim_oserror(errno.EBADF, "Bad file descriptor")
         if timeout is not None:
             if not isinstance(timeout, (int, float)):
@@ -267,7 +282,9 @@ class Kernel:
             fd = fd.fileno()
         o = self._get(fd)
         if o.kind != "tty":
-            raise _termios.error(errno.ENOTTY, "Inappropriate ioctl for device")
+            e = _termios.error(errno.ENOTTY, "Inappropriate ioctl for device")
+            e.sim = True
+            raise e
         return fd, o
 
     def tcgetattr(self, fd):
@@ -345,6 +362,24 @@ class Kernel:
         if o is None or o.kind != "tty":
             raise HarnessError("arrival on a closed/non tty fd")
         o.inq.extend(data)
+        if o.attrs[3] & _termios.ECHO:
+            # the line discipline echoes what is typed (control characters as ^X with ECHOCTL): this is what a
+            # terminal's answer to a query looks like on the screen when the tty was not put into cbreak first
+            term = getattr(self.w, "term", None)
+            if term is not None:
+                ctl = bool(o.attrs[3] & getattr(_termios, "ECHOCTL", 0))
+                out = []
+                for b in data:
+                    if b in (10, 13):
+                        out.append("\r\n")
+                    elif b < 32 and ctl and b != 9:
+                        out.append("^" + chr(b + 64))
+                    elif b < 128:
+                        out.append(chr(b))
+                    else:
+                        out.append("?")
+                term.feed("".join(out))
+                self.w.log.add("echo", len(data))
 
 
 # seam calls inside which a handler that raises may be run (CPython's
@@ -396,6 +431,8 @@ class Signals:
         if fd != -1:
             o = self.k.fds.get(fd)
             if o is None:
+                if isinstance(fd, int) and 0 <= fd < FD_BASE:
+                    raise HarnessError("set_wakeup_fd(%d): not a descriptor of the simulated kernel" % fd)
                 raise _sim_oserror(errno.EBADF, "Bad file descriptor")
             if not (o.flags & _os.O_NONBLOCK):
                 raise ValueError("the fd %i must be in non-blocking mode" % fd)
@@ -480,11 +517,16 @@ class SimOut:
     """out_stream handed to curtsies windows: text write + flush into the
     terminal model.  No fileno attribute (blessed then treats it as not-a-tty)."""
 
-    def __init__(self, world, term):
+    def __init__(self, world, term, buffering="none"):
         self.world = world
         self.term = term
         self.nwrites = 0
         self.on_write = None      # hook(ordinal) before the write takes effect
+        # like a real text stream: "none" - every write reaches the terminal at once; "line" - when the text
+        # written contains a newline (a tty's stdout); "block" - only on flush().  What is never flushed never
+        # reaches the terminal.
+        self.buffering = buffering
+        self.pending_out = []
 
     def write(self, s):
         if not isinstance(s, str):
@@ -494,11 +536,24 @@ class SimOut:
         if self.on_write is not None:
             self.on_write(self.nwrites)
         self.world.log.add("out", s)
-        self.term.feed(s)
+        if self.buffering == "none":
+            self.term.feed(s)
+        else:
+            self.pending_out.append(s)
+            if self.buffering == "line" and "\n" in s:
+                self._deliver()
         return len(s)
 
+    def _deliver(self):
+        if self.pending_out:
+            data = "".join(self.pending_out)
+            del self.pending_out[:]
+            self.term.feed(data)
+
     def flush(self):
-        pass
+        if self.pending_out:
+            self.world.log.add("flush", sum(len(x) for x in self.pending_out))
+            self._deliver()
 
     def writelines(self, lines):
         for line in lines:
@@ -562,13 +617,13 @@ class SimIn:
         dec = codecs.getincrementaldecoder(self.encoding)("replace")
         out = ""
         while len(out) < n:
-            if not o.inq:
+            if not o.readable_len():
                 if out:
                     break      # like a tty: return what is there once something was read
                 if o.flags & _os.O_NONBLOCK:
                     w.log.add("in.read", "EAGAIN")
                     raise BlockingIOError(errno.EAGAIN, "Resource temporarily unavailable")
-                w.block_until(lambda: len(o.inq) > 0, None, "in.read")
+                w.block_until(lambda: o.readable_len() > 0, None, "in.read")
             b = bytes(o.inq[:1])
             del o.inq[:1]
             out += dec.decode(b)
